@@ -13,6 +13,9 @@ Families of inputs
   histories  the state graph reachable from the empty tree by insert / delete / duplicate
              insert over K keys (every history over K keys, explored per distinct state)
 
+A state of a history is the tree plus whatever static storage the operations have written (h16 keeps it in the
+heap), so residue that an operation leaves outside the tree is carried into the next operation.
+
 The global invariant over arbitrarily large trees is not decided (no inductive proof).
 """
 from ..core import AnalysisBroken
@@ -92,17 +95,22 @@ class _Lazy:
         return self.fn()
 
 
-def render(H, x=None, first=True):
+def render(H, x=None, first=True, seen=None):
+    """the tree below x as text (a heap that an operation has damaged may contain cycles: every node is shown once)"""
     if first:
         x = H.nodes['T']['root']
+        seen = set()
     if x is NULL:
         return '.'
-    if not isinstance(x, str) or x not in H.nodes:
+    if not isinstance(x, str) or x not in H.nodes or x == 'T':
         return repr(x)
+    if x in seen:
+        return '%s(again)' % x
+    seen.add(x)
     n = H.nodes[x]
     if n.get('left') is NULL and n.get('right') is NULL:
         return x
-    return '%s(%s %s)' % (x, render(H, n.get('left'), False), render(H, n.get('right'), False))
+    return '%s(%s %s)' % (x, render(H, n.get('left'), False, seen), render(H, n.get('right'), False, seen))
 
 
 def fresh_node(H, name):
@@ -237,11 +245,14 @@ def state_key(H):
         out.append((x, n['left'], n['right'], n['parent'], n['height']))
         walk(n['right'])
     walk(H.nodes['T']['root'])
-    return tuple(out)
+    # objects outside the tree that an operation wrote (file-scope / static state) persist into the next operation
+    return tuple(out), h16.frozen_globals(H)
 
 
-def history_family(prog, tally, K=K_KEYS, max_states=20000):
-    """breadth-first over the distinct states reachable from the empty tree"""
+def history_family(prog, tally, K=K_KEYS, max_states=4000):
+    """breadth-first over the distinct states reachable from the empty tree (a state is the tree plus whatever static storage the
+    operations have written).  Returns (states explored, bound hit): when the bound is hit the exploration stops, what was evaluated
+    so far is still reported, and the caller declares the analysis broken after that (isolated failure)."""
     keys = ['k%d' % i for i in range(K)]
     rank = {k: 2 * i + 2 for i, k in enumerate(keys)}
     H0 = h16.Heap()
@@ -280,9 +291,9 @@ def history_family(prog, tally, K=K_KEYS, max_states=20000):
                     hist[key] = here + ' ' + step
                     nxt.append((G, o2))
                     if len(seen) > max_states:
-                        raise AnalysisBroken('history exploration exceeds %d states' % max_states)
+                        return nstates, True
         work = nxt
-    return nstates
+    return nstates, False
 
 
 def operations(ctx):
@@ -300,7 +311,7 @@ def operations(ctx):
         raise AnalysisBroken('struct iv_avl_tree has other fields than compare/root: heap model out of date')
     t = Tally()
     nshapes = shape_family(prog, t)
-    nstates = history_family(prog, t)
+    nstates, truncated = history_family(prog, t)
     if t.runs('shapes', 'insert') < 3000 or t.runs('shapes', 'delete') < 3000 or nstates < 1:
         raise AnalysisBroken('shape family degenerate')
     fn_of = {'insert': ins, 'delete': dele, 'duplicate': ins}
@@ -334,7 +345,11 @@ def operations(ctx):
         ob('R-C16c', '%s:duplicate:writes-nothing' % fl, fam, 'duplicate', 'pure', 'the rejected insert performs no write to any node or to the tree')
     ob('R-C16c', 'insert:fails-only-on-equal-key', ALLSH + ('histories',), 'insert', 'ret', 'every insert of a new key returns 0')
     ob('R-C16c', 'comparator:reached-through-the-tree', ALLSH + ('histories',), 'insert', 'cmp',
-       'every indirect call is a call of tree->compare on (nodes of) this tree; every insert into a non-empty tree consults it')
+       'every call that leaves the library through a pointer is a call of tree->compare on (nodes of) this tree; every insert into a '
+       'non-empty tree consults it')
+    if truncated:
+        raise AnalysisBroken('history exploration over %d keys does not close within %d states (operations leave residue in static '
+                             'storage that multiplies the states); the obligations above cover the states explored' % (K_KEYS, nstates))
 
 
 # --------------------------------------------------------------------------
@@ -369,7 +384,7 @@ def traversal(ctx, maxn=6):
             w = r.machine.writes[0]
             return 'writes %s->%s at %s' % (w[0], w[1], _rel(w[4]))
         if r.machine.indirect:
-            return 'calls through a pointer'
+            return 'calls out of the library through a pointer (callback)'
         return r.ret
 
     for f in fns.values():
